@@ -1,6 +1,7 @@
 """C20 — CloneSchemas yields an equal and fully independent schema tree."""
 from .. import core
 from .. import gen_schemaval as gsv
+from .. import gen_values as gv
 from ..ordered import same_ordered
 from ..wire import parse_ordered, from_tagged
 
@@ -12,6 +13,9 @@ RULE = ("Schema trees built by reflection over the real field table with subsche
         "schema-map-valued field (incl. the draft-07 ones), depth <= 3, nil and empty containers. Observed on the real package directly: "
         "clone marshals identically, shares no *Schema with the original (reflect walk), {allOf:[s, clone]} resolves iff {allOf:[s]} does, "
         "and after mutating every Schema object of the clone the original still marshals as before; and = model's clone. "
+        "In ~8% of the trees 1..3 Extra entries hold Go values that json decoding never produces (declared structs and pointers to them, "
+        "json.RawMessage, *Schema, typed maps / slices, json.Number, sized integers; descriptor member `goextra`): Extra is shared by "
+        "the clone, so both marshal to the same bytes whatever it holds. "
         "Non-trivial: >= 3 Schema objects; distinct = operation text")
 
 
@@ -43,8 +47,28 @@ def gen(rng, tier, n):
             fl2.append(f)
         desc, facts = gsv.gen_desc(rng, _dedup(fl2, rng), depth=rng.choice([1, 2, 3 if tier == "thorough" else 2]), nfields=(1, 6),
                                    big_int_p=0)
+        if rng.random() < 0.08:
+            go_extra(rng, desc)
         ops.append({"op": "clone", "args": {"desc": desc}, "meta": {"facts": facts, "nt": facts["n"] >= 3}})
     return ops
+
+
+def go_extra(rng, desc):
+    """Extra values built in Go: the node table gets the JSON value each one marshals to (what the model sees), `goextra` the Go value."""
+    ge = []
+    for _ in range(rng.randint(1, 3)):
+        i = rng.randrange(len(desc["nodes"]))
+        nd = desc["nodes"][i]
+        k = rng.choice(["x-go-type", "x-order", "x-raw", "x-meta", "vendor"])
+        if nd.get("Extra") is None:
+            nd["Extra"] = []
+        if k in [e[0] for e in nd["Extra"]]:
+            continue
+        g = gv.gen_govalue(rng)
+        nd["Extra"].append([k, gv.denote(g)])
+        ge.append([i, k, g])
+    if ge:
+        desc["goextra"] = ge
 
 
 def _dedup(fl, rng):
@@ -56,6 +80,19 @@ def _dedup(fl, rng):
                 names.add(f["name"])
                 out.append(f)
     return out or fl[:5]
+
+
+def _sort_under(v, keys, inside=False):
+    """The model keeps Extra values as decoded JSON (objects with ascending keys, which is what Marshal writes for maps); a Go struct or
+    a json.RawMessage under an Extra key writes its members in its own order. Below the keys of `goextra` entries — and only there —
+    member order is therefore not compared with the model (original and clone are still compared byte for byte)."""
+    from ..wire import Obj
+    if isinstance(v, Obj):
+        kvs = [(k, _sort_under(x, keys, inside or k in keys)) for k, x in v.kvs]
+        return Obj(sorted(kvs, key=lambda kv: kv[0]) if inside else kvs)
+    if isinstance(v, list):
+        return [_sort_under(x, keys, inside) for x in v]
+    return v
 
 
 def nontrivial(o):
@@ -81,7 +118,8 @@ def judge(o, go, m):
     if go.get("marshal") == "ok":
         if go["text"] != go["clone_text"]:
             return "violation", "the clone marshals differently: %s vs %s" % (go["text"][:200], go["clone_text"][:200])
-        if not same_ordered(parse_ordered(go["clone_text"]), from_tagged(mo["clone_value"])):
+        gkeys = {e[1] for e in (o["args"]["desc"].get("goextra") or [])}
+        if not same_ordered(_sort_under(parse_ordered(go["clone_text"]), gkeys), _sort_under(from_tagged(mo["clone_value"]), gkeys)):
             return "violation", "clone value: real package %s, model %r" % (go["clone_text"][:200], from_tagged(mo["clone_value"]))
         if go.get("frame") is not True:
             return "violation", "mutating the clone changed the original"
